@@ -219,7 +219,11 @@ static void run_sink (char **tok, int n)
   if (sink != NULL) { sc_io_sink_destroy (sink); printf ("NO_DESTROY_OP "); }
   if (fp) __real_fclose (fp);
   printf ("| ");
-  if (dev[0] == 'b') { printf ("%zu:", arr->elem_count); dump ((unsigned char *) arr->array, last_bb); }
+  if (dev[0] == 'b') {
+    /* the bytes below buffer_bytes (at least the kept old content, as far as the array still has it) */
+    size_t keep = append ? oldn : 0, show = last_bb > keep ? last_bb : keep, have = arr->elem_count * arr->elem_size;
+    printf ("%zu:", arr->elem_count); dump ((unsigned char *) arr->array, show < have ? show : have);
+  }
   else if (dev[0] == 'v') { printf ("%zu:", arr->elem_count); dump (vmem, cap * esz); }
   else { unsigned char *c; size_t cn = read_file (path, &c); if (cn == (size_t) -1) printf ("~"); else dump (c, cn); free (c); }
   if (arr) sc_array_destroy (arr);
